@@ -56,9 +56,11 @@ func SingleBucket(name string, fs afero.Fs, metaFs afero.Fs, opts ...SingleOptio
 	}
 
 	b := &SingleBucketBackend{
-		name:      name,
-		fs:        fs,
-		metaStore: newMetaStore(metaFs, modTimeFsCalc(fs)),
+		name: name,
+		fs:   fs,
+		metaStore: newMetaStore(metaFs, modTimeFsCalc(fs), fs, func(bucket, object string) string {
+			return object
+		}),
 	}
 	for _, opt := range opts {
 		if err := opt(b); err != nil {
